@@ -54,7 +54,10 @@ def gen(i, R, tier):
         pats = list(dict.fromkeys(c11.pattern(rng, placed) for _ in range(rng.randint(1, 2))))
         if swarm["exotic_patterns"]:
             pats += exotic(rng, placed)
-        ops.append({"op": {"yml": "set_yml", "cli": "set_cli", "gitignore": "set_gitignore"}[ch], "patterns": pats})
+        o = {"op": {"yml": "set_yml", "cli": "set_cli", "gitignore": "set_gitignore"}[ch], "patterns": pats}
+        if ch == "gitignore":
+            o["final_eol"] = rng.random() < 0.6
+        ops.append(o)
     ops.append({"op": "scan", "nonce": G.nonce(rng), "spelling": "dot"})
     paths = sorted(placed)
     if rng.random() < 0.15:
